@@ -3,7 +3,7 @@ from vlib import Case
 
 PROP_FILE = "Properties/C09.v"
 RULE = ("cases = op lists over WRITE len, EXTEND max, PICK cap flow blk (predicate = Some(cap) below offset blk, None from blk on), "
-        "ACK s e, LOSS s e (ranges drawn from earlier picks, also split / joined / repeated / after loss / after ack / already shifted), "
+        "ACK s e, LOSS s e (ranges drawn from earlier picks, also split / joined / repeated / after loss / after ack / already shifted / empty / inverted), "
         "RESEND, FORGET on SendBuf::with_capacity(cfg); non-trivial = at least 2 successful picks, at least one loss report followed by a "
         "pick that re-offers a lost byte, and at least one acknowledgement whose start or end is not a boundary of any earlier pick "
         "(evaluated on a byte-level replay of the op list); distinct by hash of the op list")
@@ -11,18 +11,17 @@ TRUSTED_BASE = ["model coq/Model/SendBuf.v restates BufMap's in-place index surg
                 "same_after) as list surgery on the raw boundary list; equality with the Rust (raw boundary deque included, via the "
                 "cfg(gmquic_verif) dump hook) is checked by stream `sndbuf` after every operation, not proved",
                 "debug profile only: debug_assert!/overflow panics of the Rust are the model's explicit PV outcome; the harness turns the "
-                "caught panic into the observation -1 and refuses pick capacity 0 / inverted ranges itself"]
+                "caught panic into the observation -1 and refuses pick capacity 0 itself"]
 MODELLED = ("qrecovery/src/send/sndbuf.rs: BufMap::{extend_to,sent,pick,ack_rcvd,shift,may_loss,may_lost_from,resend_flighting,same_before,"
             "same_after,merge_after}, SendBuf::{with_capacity,write,extend,forget_sent_state,written,sent,remaining_mut,pick_up,on_data_acked,"
             "may_loss_data,resend_flighting,is_all_rcvd}; the data deque is modelled as base offset + retained length over position-derived content")
 ASSUMPTIONS = ["written data is position-derived content (only lengths matter to SendBuf)",
                "pick predicates return None or Some(n>=1) (true of StreamFrame/CryptoFrame::estimate_max_capacity)",
-               "ranges passed to on_data_acked / may_loss_data satisfy start <= end",
                "forget_sent_state is only used before any byte was acknowledged (0-RTT rejection); outside that class see finding F28",
                "Bytes / VecDeque behave as documented; usize = u64"]
 
 MANIFEST = {
-    "text": "Machine-checked Coq theorems (Properties/C09.v) over an executable model of BufMap + SendBuf: for every operation list (writes, window extensions, pick-ups with any capacity / flow limit / congestion block, acknowledgements and loss reports of any legal range, resend_flighting, forget_sent_state) the boundary list stays well formed with Pending as a suffix, each operation refines its pointwise colour specification, every byte in [offset, written) is retained with offset = first unacknowledged byte, a pick returns a non-empty range inside the window that was uniformly Pending or Lost and is Flighting afterwards together with exactly the written bytes, fresh <-> Pending, the fresh lengths add up to sent(), lost bytes are re-offered, and is_all_rcvd holds exactly when everything written is acknowledged. The model is tied to the Rust by running the extracted model and the real SendBuf on the same op lists every run and comparing the raw boundary deque and all public observations after every operation; the property is also evaluated by a byte-level Python oracle on the implementation's observations.",
+    "text": "Machine-checked Coq theorems (Properties/C09.v) over an executable model of BufMap + SendBuf: for every operation list (writes, window extensions, pick-ups with any capacity / flow limit / congestion block, acknowledgements and loss reports of any range that passes the debug assertions (empty and inverted ranges are ignored), resend_flighting, forget_sent_state) the boundary list stays well formed with Pending as a suffix, each operation refines its pointwise colour specification, every byte in [offset, written) is retained with offset = first unacknowledged byte, a pick returns a non-empty range (for every operation list, c09_pick_nonempty) inside the window that was uniformly Pending or Lost and is Flighting afterwards together with exactly the written bytes, fresh <-> Pending, the fresh lengths add up to sent(), lost bytes are re-offered, and is_all_rcvd holds exactly when everything written is acknowledged. The model is tied to the Rust by running the extracted model and the real SendBuf on the same op lists every run and comparing the raw boundary deque and all public observations after every operation; the property is also evaluated by a byte-level Python oracle on the implementation's observations.",
     "note": "Trusted: Coq kernel, extraction (ExtrOcamlBasic only), OCaml driver, Rust harness, Python generators/oracle, the read-only hook SendBuf::verif_colours. The model restates the index arithmetic as list surgery; equality is checked by correspondence (raw boundaries), not proved. Debug profile only (debug_assert = PV outcome). Statements about retained data are conditional on forget_sent_state not being used after an acknowledgement (finding F28 otherwise).",
     "technique": "Coq proof (invariant over operation lists + refinement of every op to a pointwise colour spec) + differential correspondence model/implementation",
 }
@@ -116,17 +115,16 @@ class Sim:
             self.col[i] = F
 
     def range_legal(self, s, e):
-        """the Rust's debug assertions for on_data_acked / may_loss_data"""
-        if e < s or e > self.size:
-            return False
-        snt = self.sent()
-        if s == e:
-            return not (snt < self.size and s >= snt)
-        return e <= snt
+        """the Rust's debug assertions for on_data_acked / may_loss_data; empty (end <= start) ranges are ignored"""
+        if e <= s:
+            return True
+        return e <= self.sent()
 
     def ack(self, s, e):
         if not self.range_legal(s, e):
             return False
+        if e <= s:
+            return True
         for i in range(s, e):
             self.col[i] = R
             self.acked[i] = 1
@@ -140,6 +138,8 @@ class Sim:
     def loss(self, s, e):
         if not self.range_legal(s, e):
             return False
+        if e <= s:
+            return True
         for i in range(s, e):
             if self.col[i] == F:
                 self.col[i] = L
@@ -173,8 +173,6 @@ def oracle(case, obs):
     fresh_sum = 0
     fresh_seen = set()
     dead = False
-    had_empty = False      # an empty range was acknowledged / reported lost (FIN-only frame): finding F29 class
-    deferred = None
     for k, ((tag, a), line) in enumerate(zip(case.ops, obs)):
         if line.startswith("!"):
             return "abnormal: op %d -> %s" % (k, line)
@@ -199,14 +197,11 @@ def oracle(case, obs):
                     s, e, fr, n = v[1:5]
                     data = v[5:5 + n]
                     st = v[5 + n:]
-                    if s == e and had_empty:
-                        deferred = deferred or "F29-pick-empty: op %d pick returned the empty range %d..%d (fresh=%d) after an empty range was reported lost" % (k, s, e, fr)
-                        cand = s
-                    elif not s < e:
+                    if not s < e:
                         return "pick-empty: op %d pick returned the empty range %d..%d" % (k, s, e)
                     if e > min(sim.written, sim.max_data):
                         return "pick-window: op %d pick returned %d..%d beyond the window %d" % (k, s, e, min(sim.written, sim.max_data))
-                    cols = set(sim.col[s:e]) if s < e else {L}
+                    cols = set(sim.col[s:e])
                     if len(cols) != 1 or not (cols <= {P, L}):
                         return "pick-colour: op %d pick offered %d..%d whose bytes are %s (only never-sent or lost bytes may be offered)" % (k, s, e, sorted(cols))
                     was = cols.pop()
@@ -239,14 +234,8 @@ def oracle(case, obs):
                         else:
                             return "pending-not-offered: op %d pick refused (signals %d) although byte %d is pending, flow limit %d" % (k, v[1], cand, flow)
                     exp = 13 if cand is not None else (6 if any(c == P for c in sim.col[:sim.size]) else 12)
-                    if v[1] != exp and had_empty:
-                        deferred = deferred or "F29-signals: op %d pick refused with signals %d, expected %d (zero-length lost run)" % (k, v[1], exp)
-                    elif v[1] != exp:
+                    if v[1] != exp:
                         return "signals: op %d pick refused with signals %d, expected %d" % (k, v[1], exp)
-                elif v == [-1] and had_empty and cap >= U64 - sim.size - 1:
-                    deferred = deferred or "F29-pick-overflow: op %d pick of the zero-length lost run overflows start + capacity" % k
-                    dead = True
-                    continue
                 elif v == [-1]:
                     cand_s = sim.candidate(flow)
                     if cand_s is None or cand_s >= blk:
@@ -260,15 +249,12 @@ def oracle(case, obs):
                     return "format: op %d -> %s" % (k, v[:6])
         elif tag == 3:
             legal = sim.ack(a[0], a[1])
-            had_empty = had_empty or (legal and a[0] == a[1])
         elif tag == 4:
             legal = sim.loss(a[0], a[1])
-            had_empty = had_empty or (legal and a[0] == a[1])
         elif tag == 5:
             sim.resend()
         elif tag == 6:
             sim.forget()
-            had_empty = False
             fresh_sum = 0
             fresh_seen = set()
         else:
@@ -298,10 +284,7 @@ def oracle(case, obs):
             return "size: op %d map size %d, expected min(written, max_data)=%d" % (k, size, sim.size)
         for j in range(len(runs)):
             if not (runs[j][0] < size and (j == 0 or runs[j - 1][0] < runs[j][0])):
-                if had_empty and runs[j][0] <= size and (j == 0 or runs[j - 1][0] <= runs[j][0]):
-                    deferred = deferred or "F29-runs: op %d boundary list %s has a zero-length run (size %d) after an empty range was acknowledged / reported lost" % (k, runs, size)
-                else:
-                    return "runs: op %d boundary list %s is not strictly increasing below size %d" % (k, runs, size)
+                return "runs: op %d boundary list %s is not strictly increasing below size %d" % (k, runs, size)
         got = expand_runs(runs, size, sim.written)
         if got != sim.col:
             i = next(i for i in range(sim.written) if got[i] != sim.col[i])
@@ -322,7 +305,7 @@ def oracle(case, obs):
         all_acked = first_unacked == sim.written
         if bool(allr) != all_acked:
             return "complete: op %d is_all_rcvd=%d but %s" % (k, allr, "every written byte is acknowledged" if all_acked else "byte %d is not acknowledged" % first_unacked)
-    return deferred
+    return None
 
 
 def s_overflow(s, cap, flow):
@@ -332,8 +315,6 @@ def s_overflow(s, cap, flow):
 def classify(case, msg, obs):
     if msg.startswith("F28-"):
         return "F28"
-    if msg.startswith("F29-"):
-        return "F29"
     return None
 
 
@@ -417,7 +398,7 @@ def hist(case):
             if a[1] == 0:
                 lab.append("pick:flow0")
         if tag in (3, 4):
-            if a[0] == a[1]:
+            if a[0] >= a[1]:
                 lab.append(n + ":empty")
             if tag == 3:
                 if any(s <= a[0] and a[1] <= e for s, e in acked_ranges):
@@ -456,7 +437,7 @@ def gen_one(rng, name):
     forget_ok = rng.random() < 0.08
     crypto = rng.random() < 0.15       # crypto-stream style: flow usize::MAX, resend_flighting used
     to_write = total
-    fin_ok = rng.random() < 0.12       # FIN-only frames (empty ranges at the end) acked / lost: finding F29 class
+    fin_ok = rng.random() < 0.25       # FIN-only frames (empty ranges at the end) acked / lost, other empty / inverted ranges
     state = {"finished": False}
 
     def small():
@@ -467,6 +448,9 @@ def gen_one(rng, name):
         if fin_ok and snt == sim.size == sim.written and snt > 0 and rng.random() < 0.3:
             state["finished"] = True
             return snt, snt                          # FIN-only frame position: the empty range at the very end
+        if fin_ok and rng.random() < 0.08:
+            x = rng.randint(0, sim.written + 2)      # an empty or inverted range anywhere: ignored by the buffer
+            return x, rng.randint(0, x)
         r = rng.random()
         if picks and r < 0.75:
             s, e = rng.choice(picks)
@@ -485,7 +469,7 @@ def gen_one(rng, name):
             if not pv_ok:
                 e = min(e, snt)
                 s = min(s, e)
-            if s >= e:
+            if s >= e and not fin_ok:
                 return None
             return s, e
         if r < 0.95 or not pv_ok:
@@ -655,7 +639,7 @@ def gen(rng, tier):
         return (gen_exhaustive(4, 2, "ex4-", setups_for(4)) + gen_exhaustive(3, 3, "ex3-", setups_for(3)[:3], caps=(1,))
                 + gen_random(rng, 6000, "r"))
     return (gen_exhaustive(6, 3, "ex6-", setups_for(6)) + gen_exhaustive(4, 4, "ex4-", setups_for(4), caps=(1,))
-            + gen_exhaustive(3, 5, "ex3-", setups_for(3)[:2], caps=(1,), limit=250000)
+            + gen_exhaustive(3, 5, "ex3-", setups_for(3)[:2], caps=(1,), limit=150000)
             + gen_random(rng, 40000, "r"))
 
 
